@@ -113,6 +113,11 @@ pub fn find_events(kind: Kind, vseed: u64, n_seeds: u64, words_per_seed: u64, ke
                         if (w >> 32) as u32 == u32::MAX {
                             push(i, "word with an all-ones upper half", w, &mut out);
                         }
+                        if !m.internal.is_empty() {
+                            for (_step, what, value) in m.internal.drain(..) {
+                                push(i + 255, what, value, &mut out);
+                            }
+                        }
                     }
                 }
             }
@@ -136,7 +141,7 @@ pub fn events_for(kind: Kind, vseed: u64, thorough: bool) -> (Vec<Event>, u64) {
     let n_seeds: u64 = if thorough { 1 << 16 } else { 1 << 14 };
     let words_per_seed: u64 = 1 << 20;
     let dir = std::env::var("VERIF_CACHE").unwrap_or_else(|_| "/verif/harness/target".to_string());
-    let path = format!("{}/rare3-{:?}-{}-{}.json", dir, kind, vseed, n_seeds);
+    let path = format!("{}/rare4-{:?}-{}-{}.json", dir, kind, vseed, n_seeds);
     if let Ok(t) = std::fs::read_to_string(&path) {
         if let Ok(v) = serde_json::from_str::<serde_json::Value>(&t) {
             if let Some(a) = v.get("events").and_then(|e| e.as_array()) {
@@ -180,6 +185,10 @@ fn intern(s: &str) -> &'static str {
         "step whose two looked-up words are equal in different slots",
         "step with a zero looked-up word",
         "step with a zero accumulator or a zero new table word",
+        "step whose second looked-up word shares a 32-bit half with the old word of the slot being rewritten, in another slot",
+        "step whose first looked-up word shares a 32-bit half with the old word of the slot being rewritten, in another slot",
+        "step that rewrites its slot with a word sharing a 32-bit half with the old one",
+        "step with a looked-up word that has a zero 32-bit half",
     ] {
         if k == s {
             return k;
